@@ -18,9 +18,11 @@ import (
 	"time"
 
 	"github.com/agglayer/aggkit/bridgesync"
+	aggdb "github.com/agglayer/aggkit/db"
 	"github.com/agglayer/aggkit/reorgdetector"
 	aggsync "github.com/agglayer/aggkit/sync"
 	"github.com/agglayer/aggkit/tree"
+	treemigrations "github.com/agglayer/aggkit/tree/migrations"
 	treetypes "github.com/agglayer/aggkit/tree/types"
 	aggkittypes "github.com/agglayer/aggkit/types"
 	"github.com/ethereum/go-ethereum/common"
@@ -221,6 +223,7 @@ func installFault(db *sql.DB, f *Fault) {
 		}
 	}
 }
+
 // installSlow makes the k-th write to the table take a few hundred milliseconds (no failure).
 func installSlow(db *sql.DB, f *Fault) {
 	tbl, ok := faultTables[f.Table]
@@ -262,17 +265,17 @@ func removeFault(db *sql.DB) {
 }
 
 type runner struct {
-	shadow       *runner // clean processor that is one block ahead when a mid-transaction read is scripted
+	shadow       *runner         // clean processor that is one block ahead when a mid-transaction read is scripted
 	okBlocks     []aggsync.Block // blocks recorded and not reorged away (to bring a late-created shadow up to date)
-	cancelWaitMs []int64 // how long each cancelled ProcessBlock took to return (evidence that the slow statement was running)
-	ctx       context.Context
-	path      string
-	s         *bridgesync.BridgeSync
-	allLeaves []string
-	rootLo    int64             // first deposit count queried in snapshots (n-1 after a synthetic pre-state of n leaves)
-	leaves    map[uint32]string // dc -> leaf hash of the LAST processed bridge with that dc
-	maxDC     int64
-	proofs    string
+	cancelWaitMs []int64         // how long each cancelled ProcessBlock took to return (evidence that the slow statement was running)
+	ctx          context.Context
+	path         string
+	s            *bridgesync.BridgeSync
+	allLeaves    []string
+	rootLo       int64             // first deposit count queried in snapshots (n-1 after a synthetic pre-state of n leaves)
+	leaves       map[uint32]string // dc -> leaf hash of the LAST processed bridge with that dc
+	maxDC        int64
+	proofs       string
 }
 
 func (r *runner) open() {
@@ -807,6 +810,47 @@ func run(in In, dir string, n int) (out Out) {
 	return
 }
 
+// neighbourTree appends leaves to an append-only tree of its own until told to stop. Every batch is rolled back, so the database
+// stays empty (the tree starts again from index 0); what it does meanwhile is what any syncer does: hash and store nodes.
+func neighbourTree(dir string, k int, stop <-chan struct{}, wg *sync.WaitGroup) {
+	defer wg.Done()
+	dbPath := filepath.Join(dir, fmt.Sprintf("neighbour_%d.sqlite", k))
+	if err := treemigrations.RunMigrations(dbPath); err != nil {
+		return
+	}
+	d, err := aggdb.NewSQLiteDB(dbPath)
+	if err != nil {
+		return
+	}
+	defer d.Close()
+	t := tree.NewAppendOnlyTree(d, "")
+	ctx := context.Background()
+	for n := uint64(0); ; n++ {
+		select {
+		case <-stop:
+			if os.Getenv("VERIF_DEBUG_NEIGHBOUR") != "" {
+				fmt.Fprintln(os.Stderr, "neighbour", k, "batches of 64 leaves:", n)
+			}
+			return
+		default:
+		}
+		tx, err := aggdb.NewTx(ctx, d)
+		if err != nil {
+			return
+		}
+		for j := uint32(0); j < 64; j++ {
+			if err := t.AddLeaf(tx, n, uint64(j), treetypes.Leaf{Index: j, Hash: common.BigToHash(new(big.Int).SetUint64(n<<8 | uint64(j)))}); err != nil {
+				if os.Getenv("VERIF_DEBUG_NEIGHBOUR") != "" {
+					fmt.Fprintln(os.Stderr, "neighbour:", n, j, err)
+				}
+				break
+			}
+
+		}
+		_ = tx.Rollback()
+	}
+}
+
 func main() {
 	propFlag := flag.String("prop", "c01", "generator: c01|c04|c07|c08")
 	parFlag := flag.Int("par", 1, "cases run concurrently in this process (own database each): as the node's syncers do, several trees hash and store at the same time")
@@ -821,6 +865,14 @@ func main() {
 				panic(err)
 			}
 			ins = append(ins, in)
+		}
+		// a replayed case runs next to copies of itself: what a case that failed in a concurrent run needs in order to fail again
+		// is other trees hashing and storing at the same time (every copy is a case of its own for the comparison)
+		if *parFlag > 1 {
+			one := ins
+			for k := 1; k < *parFlag; k++ {
+				ins = append(ins, one...)
+			}
 		}
 	} else {
 		ins = generate(prop, f)
@@ -838,7 +890,16 @@ func main() {
 		}
 		return
 	}
-	// concurrent processors in one process; results are emitted in input order (every case is deterministic on its own)
+	// concurrent processors in one process; results are emitted in input order (every case is deterministic on its own).
+	// Two neighbour trees of the same process (as the L1 info tree syncer's next to the bridge syncers') keep appending leaves
+	// in databases of their own meanwhile; they share nothing with the cases but the process.
+	stop := make(chan struct{})
+	var nwg sync.WaitGroup
+	for k := 0; k < 2; k++ {
+		nwg.Add(1)
+		go neighbourTree(dir, k, stop, &nwg)
+	}
+	defer func() { close(stop); nwg.Wait() }()
 	outs := make([]any, len(ins))
 	var wg sync.WaitGroup
 	sem := make(chan struct{}, *parFlag)
